@@ -201,6 +201,9 @@ func (env *Env) eval(e Expr) Value {
 		idx := env.toINT(iv)
 		switch u := v.T.Underlying().(type) {
 		case *types.Slice:
+			if v.Det != nil {
+				return env.detIndex(v, idx)
+			}
 			return x.load(env.fr, env.st, c.sliceElemLoc(v, idx))
 		case *types.Array:
 			out := make([]Term, len(v.L))
@@ -563,6 +566,9 @@ func (env *Env) evalCall(t *ECall) Value {
 	case "typeinv":
 		v := env.eval(t.Args[0])
 		return env.boolv(x.typeInvTerm(env, v))
+	}
+	if uf, ok := x.p.cs.UFuns[t.Fn]; ok {
+		return env.applyUFun(uf, t.Args)
 	}
 	if sf, ok := x.p.cs.Specs[t.Fn]; ok {
 		if len(sf.Params) != len(t.Args) {
